@@ -66,10 +66,14 @@ pub fn run_case(case: &Case, names: &HashMap<String, u16>, root: &PathBuf) {
         for tok in case.hist.iter() {
             let (kind, rest) = tok.split_at(1);
             match kind {
-                "d" | "u" => {
+                "d" | "u" | "r" => {
                     let code: u16 = rest.parse().unwrap();
                     let Some(osc) = oscode(code) else { continue };
-                    let value = if kind == "d" { KeyValue::Press } else { KeyValue::Release };
+                    let value = match kind {
+                        "d" => KeyValue::Press,
+                        "u" => KeyValue::Release,
+                        _ => KeyValue::Repeat,
+                    };
                     queue.push_back(KeyEvent { code: osc, value });
                 }
                 "W" => {
